@@ -613,7 +613,7 @@ def len_rule(ctx, bodies=None, R=None):
                 org = flow.origins(b, hi, at=(bb, i), stop=stop)
                 direct = bool(org) and all(o.kind == "call" and READER_READ.search(o.call.f) and not stop(o.call) for o in org)
                 lo_k = op_const(ops[0])
-                R.require(direct and lo_k is not None and lo_k.get("v") == 0, "%s:loop@%s" % (b.impl_self or b.id, b.lname(hi[0])), "%s:%d" % (b.file, s[3]),
+                R.require(direct and lo_k is not None and lo_k.get("v") == 0, "%s:loop#%d" % (b.impl_self or b.id, n), "%s:%d" % (b.file, s[3]),
                           "loop `0..%s` iterates exactly the count read from the wire" % b.lname(hi[0]),
                           fail_msg="%s: the element loop runs `%s..%s` where the bound comes from %s, not directly from the decoded length: the reader consumes a different number of elements than the writer emitted (frame desynchronises)"
                                    % (b.impl_self or b.id, (lo_k or {}).get("v", "?"), b.lname(hi[0]), cm.origin_summary(org)))
